@@ -157,6 +157,11 @@ fn _contains_msg_sender_conditions(function_definition: &Box<FunctionDefinition>
         let expression = node.expression().unwrap();
 
         if let Expression::FunctionCall(_, box_identifier, function_args) = expression {
+            //Skip type conversions such as `payable(msg.sender)`, they do not check the sender
+            if let Expression::Type(_, _) = *box_identifier {
+                continue;
+            }
+
             //Skip if the function call is a selfdestruct, as it does not affect this vulnerability
             if _is_selfdestruct(box_identifier) {
                 continue;
